@@ -17,7 +17,7 @@ PLANS = {
     "C04": dict(engine=INO, mc=["MC_WatchSet"],
                 quick=[("wsexh", 196, "k=2"), ("wsexh", 900, "k=3"), ("wsrand", 200, ""), ("repoint", 60, "")],
                 thorough=[("wsexh", 196, "k=2"), ("wsexh", 2744, "k=3"), ("wsexh", 38416, "k=4"), ("wsrand", 6000, ""), ("repoint", 600, "")]),
-    "C05": dict(engine=INO, mc=["MC_Sched"], also_lin=True,
+    "C05": dict(engine=INO, mc=["MC_Sched", "MC_SchedLive"], also_lin=True,
                 quick=[("lag", 300, ""), ("close", 100, ""), ("stall", 40, ""), ("ovfstall", 2, "")],
                 thorough=[("lag", 5000, ""), ("close", 2000, ""), ("stall", 600, ""), ("ovfstall", 12, "")]),
     "C06": dict(engine=INO, mc=["MC_Sched"], also_lin=True,
@@ -41,12 +41,12 @@ PLANS = {
     "C13": dict(engine=INO, mc=["MC_Sched"],
                 quick=[("close", 200, ""), ("newclose", 3, "n=300"), ("lag", 60, ""), ("ovfstall", 1, "mode=close")],
                 thorough=[("close", 5000, ""), ("newclose", 10, "n=1000"), ("lag", 1500, "")]),
-    "C14": dict(engine=INO, mc=["MC_Multi"],
+    "C14": dict(engine=INO, mc=["MC_Events"],
                 quick=[("multi", 100, ""), ("multix", 60, ""), ("absorb", 40, "")],
                 thorough=[("multi", 2000, ""), ("multix", 1500, ""), ("absorb", 400, "")]),
 }
 
-PLANS["C19"] = dict(engine=INO, mc=["MC_Recurse"],
+PLANS["C19"] = dict(engine=INO, mc=[],
                     quick=[("recurse", 300, "")],
                     thorough=[("recurse", 8000, "")])
 _KQ = dict(engine="kq", driver="kqrun", trace_spec="KqueueTrace", mc=["MC_Kq"],
